@@ -121,7 +121,7 @@ def ob_fail(f: int, n1: int, pos0: int, pos1: int, pk: int) -> bool:
         return H.verdict(not probs)
 
 
-def ob_iterfail(j: int, pos0: int, pk: int) -> bool:
+def ob_iterfail(j: int, pos0: int, pk: int, base: bool) -> bool:
     """
     pre: -2 <= j <= 6
     pre: -1 <= pos0 <= 600
@@ -134,14 +134,17 @@ def ob_iterfail(j: int, pos0: int, pk: int) -> bool:
     jj = H.select(j, -2, 6)                      # -1: the iterable's __iter__ itself raises; -2: with a BaseException
     p0 = H.select_bisect(pos0, -1, steps)
     pkv = H.select(pk, 0, 1)
+    bs = bool(base)
+    H.assume(jj >= 0 or not bs)
     with H.native():
-        calls = [dict(n_tasks=8, iter_fail_at=jj) if jj >= 0 else dict(n_tasks=8, iter_raises=True if jj == -1 else "base"),
-                 dict(n_tasks=3)]
+        # base: the failure is a BaseException that is not an Exception (SystemExit from sys.exit() in the producer, ...)
+        calls = [dict(n_tasks=8, iter_fail_at=jj, iter_fail_base=bs) if jj >= 0 else
+                 dict(n_tasks=8, iter_raises=True if jj == -1 else "base"), dict(n_tasks=3)]
         pre = [(p0, 0)] if p0 >= 0 else []
         o = parlib.run(_cfg(H.PARAMS, calls), dict(preempt=pre, picks=[pkv]))
         probs = _check_calls(o, [("iterfail", 8, jj), ("ok", 3)])
         for m in probs:
-            H.note("iterator fails at %d preempt=%r: %s" % (jj, pre, m))
+            H.note("iterator fails at %d (BaseException: %r) preempt=%r: %s" % (jj, bs, pre, m))
         return H.verdict(not probs)
 
 
